@@ -7,9 +7,14 @@
 //   C19.cc        : relations (core operand sets x 10 contexts), predicates (non-bool predicate values),
 //                   hygiene (operands that are expressions / have side effects / cannot be copied)
 //   C19_types1.cc, C19_types2.cc : relation macros over 45 further operand-type pairs
+//   C19_types3.cc, C19_types5.cc : the TYPE of the predicate of expect / expect_msg / expect_generic (round 5): every scalar
+//                   type with every bit / fractions / denormals, pointers, enums; class and library types
+//   C19_types4.cc, C19_types6.cc : relation macros over 25 more mixed operand-type pairs (128-bit, widths, floating mixes) and
+//                   over the TYPE OF THE RESULT of user-defined comparison operators, three-way comparison (round 5)
+//   C19_pred.hh   : typed front end of the predicate sweep; every macro call behind a requires-expression feature test
 //   C19_raises.cc : expect_raises matrix (expected type x behaviour x kind of callable x context)
 //   C19_hist.cc   : histories of calls, exception objects in non-initial states, boundary sites and arguments
-#include "C19_rel.hh"
+#include "C19_pred.hh"
 
 using namespace phosg;
 using namespace c19;
@@ -49,41 +54,6 @@ struct AsBool {
 };
 std::string sv(const AsInt& a) { return vf::fmt("AsInt{%lld}", a.v); }
 std::string sv(const AsBool& a) { return vf::fmt("AsBool{%d}", a.v); }
-
-template <class V>
-void check_pred(vf::Run& r, const char* tname, const std::vector<V>& vals, const std::vector<int>& ctxs) {
-  r.note(std::string("predicates ") + tname);
-  static const char* forms[] = {"expect", "expect_msg", "expect_generic", "expect(!v)"};
-  static const std::string m1 = "value is zero: 50% of %s", m2 = "generic %d%n";
-  for (int ctx : ctxs) {
-    for (int form = 0; form < 4; form++) {
-      for (size_t i = 0; i < vals.size(); i++) {
-        if (!r.take()) continue;
-        const V& v = vals[i];
-        auto d = [&] { return vf::fmt("%s<%s>(%s)", forms[form], tname, sv(v).c_str()); };
-        if (r.wants_desc()) r.desc(d() + " [" + ctx_name(ctx) + "]");
-        bool truth = false;
-        Site site;
-        site.file = __FILE__;
-        Res res = run_ctx(ctx, r.ambient_errno(), [&] {
-          return probe([&] {
-            // clang-format off
-            switch (form) {
-              case 0: { bool t = v; truth = t; site.line = __LINE__; expect(v); break; }
-              case 1: { bool t = v; truth = t; site.line = __LINE__; expect_msg(v, "value is zero: 50% of %s"); break; }
-              case 2: { bool t = v; truth = t; site.line = 77; site.file = "some/other file.cc"; expect_generic(v, "generic %d%n", "some/other file.cc", 77); break; }
-              case 3: { bool t = !v; truth = t; site.line = __LINE__; expect(!v); break; }
-            }
-            // clang-format on
-          });
-        });
-        r.nontriv();
-        static const std::vector<std::string> p0 = {"v"}, none = {}, p3 = {"!v"};
-        judge(r, form == 3 ? "expect" : forms[form], ctx, !truth, res, site, form == 0 ? p0 : form == 3 ? p3 : none, form == 1 ? &m1 : form == 2 ? &m2 : nullptr, d);
-      }
-    }
-  }
-}
 
 }  // namespace
 
@@ -125,18 +95,22 @@ struct Counter {
 
 }  // namespace
 
-VF_SECTION(hygiene, 2, 2, 120) {
-  const auto& C = all_ctx();
+// (1) of the hygiene section.  A function template (I = int) only so that the operands are type-dependent and every
+// macro call can sit behind a requires-expression feature test (round 5): a change that rejects e.g. `bool < int`
+// operands is then a keyed finding instead of a build failure.
+template <class I>
+void hygiene_expressions(vf::Run& r, const std::vector<int>& C) {
   r.note("hygiene");
+  const int NF = 34;
   // (1) operands that are expressions whose operators bind weaker than the comparison: the stated relation is
   //     (A) op (B) with the operands taken as written.  x, y, z over {0,1,2,3}.
-  const int NF = 34;
   for (int ctx : C) {
     for (int form = 0; form < NF; form++) {
       for (int xyz = 0; xyz < 64; xyz++) {
         if (!r.take()) continue;
-        int x = xyz & 3, y = (xyz >> 2) & 3, z = xyz >> 4;
-        int t = 0;  // target of the assignment forms
+        I x = xyz & 3, y = (xyz >> 2) & 3, z = xyz >> 4;
+        I t = 0;  // target of the assignment forms
+        int ill = 0;
         bool truth = false, post_ok = true;
         Site site;
         site.file = __FILE__;
@@ -144,11 +118,11 @@ VF_SECTION(hygiene, 2, 2, 120) {
         const char* mname = "";
         std::string text;
 #define BIN(N, M, OP, A, B) \
-  case N: mname = #M; text = #M "(" #A ", " #B ")"; parts = {#A, #B}; truth = bool((A)OP(B)); t = 0; site.line = __LINE__; M(A, B); break;
+  case N: mname = #M; text = #M "(" #A ", " #B ")"; parts = {#A, #B}; truth = bool((A)OP(B)); t = 0; if constexpr (requires { M(A, B); }) { site.line = __LINE__; M(A, B); } else ill = ill_code<decltype((A)OP(B))>; break;
 #define UNA(N, A) \
-  case N: mname = "expect"; text = "expect(" #A ")"; parts = {#A}; truth = bool((A)); t = 0; site.line = __LINE__; expect(A); break;
+  case N: mname = "expect"; text = "expect(" #A ")"; parts = {#A}; truth = bool((A)); t = 0; if constexpr (requires { expect(A); }) { site.line = __LINE__; expect(A); } else ill = ill_code<decltype((A))>; break;
 #define MSG(N, A) \
-  case N: mname = "expect_msg"; text = "expect_msg(" #A ", \"m\")"; parts = {"m"}; truth = bool((A)); t = 0; site.line = __LINE__; expect_msg(A, "m"); break;
+  case N: mname = "expect_msg"; text = "expect_msg(" #A ", \"m\")"; parts = {"m"}; truth = bool((A)); t = 0; if constexpr (requires { expect_msg(A, "m"); }) { site.line = __LINE__; expect_msg(A, "m"); } else ill = ill_code<decltype((A))>; break;
         Res res = run_ctx(ctx, r.ambient_errno(), [&] {
           return probe([&] {
             // clang-format off
@@ -185,9 +159,9 @@ VF_SECTION(hygiene, 2, 2, 120) {
               MSG(29, x == y ? z : 0)
               MSG(30, x & y & z)
               // assignments as operands: evaluated once, with the value of the assignment
-              case 31: mname = "expect_ne"; text = "expect_ne(t = y, z)"; parts = {"t = y", "z"}; truth = (y != z); t = -7; site.line = __LINE__; expect_ne(t = y, z); break;
-              case 32: mname = "expect_eq"; text = "expect_eq(z, t = x)"; parts = {"z", "t = x"}; truth = (z == x); t = -7; site.line = __LINE__; expect_eq(z, t = x); break;
-              case 33: mname = "expect"; text = "expect(t = x & y)"; parts = {"t = x & y"}; truth = ((x & y) != 0); t = -7; site.line = __LINE__; expect(t = x & y); break;
+              case 31: mname = "expect_ne"; text = "expect_ne(t = y, z)"; parts = {"t = y", "z"}; truth = (y != z); t = -7; if constexpr (requires { expect_ne(t = y, z); }) { site.line = __LINE__; expect_ne(t = y, z); } else { ill = 2; t = y; } break;
+              case 32: mname = "expect_eq"; text = "expect_eq(z, t = x)"; parts = {"z", "t = x"}; truth = (z == x); t = -7; if constexpr (requires { expect_eq(z, t = x); }) { site.line = __LINE__; expect_eq(z, t = x); } else { ill = 2; t = x; } break;
+              case 33: mname = "expect"; text = "expect(t = x & y)"; parts = {"t = x & y"}; truth = ((x & y) != 0); t = -7; if constexpr (requires { expect(t = x & y); }) { site.line = __LINE__; expect(t = x & y); } else { ill = 2; t = x & y; } break;
             }
             // clang-format on
           });
@@ -195,17 +169,24 @@ VF_SECTION(hygiene, 2, 2, 120) {
 #undef BIN
 #undef UNA
 #undef MSG
+        res.ill_formed = ill;
         if (form == 31) post_ok = (t == y);
         if (form == 32) post_ok = (t == x);
         if (form == 33) post_ok = (t == (x & y));
-        auto d = [&] { return text + vf::fmt(" with x=%d y=%d z=%d", x, y, z); };
+        auto d = [&] { return text + vf::fmt(" with x=%d y=%d z=%d", (int)x, (int)y, (int)z); };
         if (r.wants_desc()) r.desc(d() + " [" + ctx_name(ctx) + "]");
         r.nontriv();
-        if (!post_ok) r.fail(std::string(mname) + ":operand-evaluation", [&] { return d() + vf::fmt(": the assignment operand left t=%d", t); });
+        if (!post_ok) r.fail(std::string(mname) + ":operand-evaluation", [&] { return d() + vf::fmt(": the assignment operand left t=%d", (int)t); });
         else judge(r, mname, ctx, !truth, res, site, parts, nullptr, d);
       }
     }
   }
+}
+
+VF_SECTION(hygiene, 2, 2, 120) {
+  const auto& C = all_ctx();
+  r.note("hygiene");
+  hygiene_expressions<int>(r, C);
   // (2) operands with side effects are evaluated exactly once, whatever the verdict
   r.note("hygiene: side effects");
   for (int ctx : C) {
